@@ -418,6 +418,15 @@ func (s *Sim) Tasks() []*Task {
 	return append([]*Task(nil), s.tasks...)
 }
 
+// SeqNoLock / TasksNoLock are for invariants, which run on the scheduler
+// goroutine at quiescence (nothing else is running).
+//
+//go:norace
+func (s *Sim) SeqNoLock() uint64 { return s.seq }
+
+//go:norace
+func (s *Sim) TasksNoLock() []*Task { return s.tasks }
+
 // Invariant registers a predicate evaluated by the scheduler after every step,
 // with every task parked.
 //
